@@ -116,10 +116,10 @@ Definition prim_fn (p : prim) (vs : list Z) : Z :=
   | PRepeat r _ => Repeat_propagate (snd r) (v 0%nat)
   | PXor2 r a b => Xor2_m mid_max (snd a) (snd b) (snd r) (v 0%nat) (v 1%nat)   (* the repaired constructor: Mid/XOut/YOut are max(wa,wb,wr) wide *)
   | PNand2 r a _ => Nand2_m (snd a) (snd r) (v 0%nat) (v 1%nat)
-  | PNor2 r a _ => Nor2_m (snd a) (snd r) (v 0%nat) (v 1%nat)
+  | PNor2 r a _ => Nor2_m (snd r) (snd r) (v 0%nat) (v 1%nat)            (* Mid is as wide as r since /repo fcb70c1 *)
   | PAnd r _ => And_m (snd r) vs
   | POr r _ => Or_m (snd r) vs
-  | PNor r ins => Nor_m (match ins with x :: _ => snd x | [] => 0 end) (snd r) vs
+  | PNor r ins => Nor_m (snd r) (snd r) vs
   | PEqual r a b => Equal_m mid_max eqw_max (snd a) (snd b) (v 0%nat) (v 1%nat) (* the repaired constructor: the xor wire is max(wa,wb) wide *)
   | PEqualConst r a k => EqualConstant_m (snd a) (snd r) k (v 0%nat)
   | PDiv r _ _ => Div_propagate (snd r) 0 (v 0%nat) (v 1%nat)                  (* rnd := 0 = a / 0 of VSem *)
@@ -143,9 +143,9 @@ Definition prim_guard (p : prim) : bool :=
   | PRepeat _ i => snd i =? 1
   (* guards of C08's ladder theorems: Nor2/Nor: every operand fits the Mid wire, which has the first operand's width; Equal: 1-bit result;
      EqualConstant: the constant fits the operand.  Xor2 and Equal (repaired constructors, C08's mid_max / eqw_max): any operand widths *)
-  | PNor2 _ a b => snd b <=? snd a
+  | PNor2 _ a b => true
   | PAnd _ ins | POr _ ins => match ins with [] => false | _ => true end
-  | PNor _ ins => match ins with [] => false | x :: t => forallb (fun n => snd n <=? snd x) t end
+  | PNor _ ins => match ins with [] => false | _ => true end
   | PEqual r _ _ => snd r =? 1
   | PEqualConst r a v => (snd r =? 1) && (0 <=? v) && (v <? 2 ^ snd a) && (v <? 2 ^ 31)
   | PBitOf _ a bits k => (k <? length bits)%nat && (Z.of_nat (length bits) =? snd a) && (snd a <? 2 ^ 31)
